@@ -47,12 +47,13 @@ Fixpoint ty_ind' (t : ty) : P t :=
   end.
 End TyInd.
 
-(* populateImports visits exactly the packages types.TypeString prints a qualifier for --
-   for every type without unsafe.Pointer and without package-qualified union terms *)
+(* populateImports visits exactly the packages types.TypeString prints a qualifier for, for
+   every type (the guard is the well-formedness of `any`); since the repair of D8 this includes
+   unsafe.Pointer and the terms of constraint unions *)
 Theorem refs_eq_mentions : forall t, walk_complete t = true -> mentions t = refs t.
 Proof.
   apply (ty_ind' (fun t => walk_complete t = true -> mentions t = refs t)).
-  - intros n k u W. destruct u; simpl in W; [discriminate W|reflexivity].
+  - intros n k u W. destruct u; reflexivity.
   - intros p n targs F W. simpl in *. f_equal.
     induction F as [|x l Hx F IH]; [reflexivity|]. simpl in W. apply andb_prop in W. destruct W as [W1 W2].
     rewrite (Hx W1), (IH W2). reflexivity.
@@ -88,13 +89,13 @@ Proof.
         apply andb_prop in W2. destruct W2 as [A B]. rewrite (Hx A), (IH B). reflexivity.
   - intros ts F W. simpl in *.
     induction F as [|[tilde x] l Hx F IH]; [reflexivity|]. simpl in *.
-    destruct (mentions x); [|discriminate]. simpl. apply IH. exact W.
+    apply andb_prop in W. destruct W as [A B]. rewrite (Hx A), (IH B). reflexivity.
 Qed.
 
-(* the two constructors the walk misses (findings D8 and D21), as evaluated witnesses *)
-Example refs_eq_mentions_refuted :
-  mentions (TBasic "Pointer" KOther true) <> refs (TBasic "Pointer" KOther true) /\
+(* the two constructors the walk used to miss (D8, repaired): now visited *)
+Example refs_eq_mentions_fixed :
+  refs (TBasic "Pointer" KOther true) = [unsafe_pkg] /\
   let t := TUnion [(false, TNamed (Some (mkPkg "example.com/cons" "cons")) "MyInt" []);
                    (false, TBasic "string" KString false)] in
-  mentions t <> refs t.
-Proof. split; vm_compute; discriminate. Qed.
+  mentions t = refs t /\ refs t = [mkPkg "example.com/cons" "cons"].
+Proof. vm_compute. repeat split. Qed.
